@@ -108,7 +108,8 @@ class BatchProcessor(Entity):
         self._buffer.append(event)
 
         # Schedule timeout when first item enters an empty buffer
-        if len(self._buffer) == 1 and self.timeout_s > 0:
+        # (unless that item already completes the batch)
+        if len(self._buffer) == 1 and self.timeout_s > 0 and self.batch_size > 1:
             self._timeout_event = Event(
                 time=self.now + self.timeout_s,
                 event_type=_BATCH_TIMEOUT,
